@@ -189,7 +189,29 @@ def _rewrite_block(stmts: list) -> list:
     return out
 
 
+def _dict_default(s: ast.stmt) -> Optional[ast.stmt]:
+    """G  dict default     try: X = D[K]  except KeyError: X = V      ->  X = D.get(K, V)
+                           try: return D[K]  except KeyError: return V ->  return D.get(K, V)"""
+    if not (isinstance(s, ast.Try) and len(s.body) == 1 and len(s.handlers) == 1 and not s.orelse and not s.finalbody):
+        return None
+    h = s.handlers[0]
+    if not (h.type is not None and ast.unparse(h.type) == "KeyError" and len(h.body) == 1):
+        return None
+    a, b = s.body[0], h.body[0]
+    if isinstance(a, ast.Assign) and isinstance(b, ast.Assign) and len(a.targets) == 1 and len(b.targets) == 1 \
+            and ast.dump(a.targets[0]) == ast.dump(b.targets[0]) and isinstance(a.value, ast.Subscript):
+        call = ast.Call(func=ast.Attribute(value=a.value.value, attr="get", ctx=ast.Load()), args=[a.value.slice, b.value], keywords=[])
+        return ast.fix_missing_locations(ast.copy_location(ast.Assign(targets=a.targets, value=call, lineno=s.lineno), s))
+    if isinstance(a, ast.Return) and isinstance(b, ast.Return) and isinstance(a.value, ast.Subscript) and b.value is not None:
+        call = ast.Call(func=ast.Attribute(value=a.value.value, attr="get", ctx=ast.Load()), args=[a.value.slice, b.value], keywords=[])
+        return ast.fix_missing_locations(ast.copy_location(ast.Return(value=call), s))
+    return None
+
+
 def _rewrite_stmt(s: ast.stmt) -> ast.stmt:
+    g = _dict_default(s)
+    if g is not None:
+        return g
     new = None
     for fld in ("body", "orelse", "finalbody"):
         v = getattr(s, fld, None)
